@@ -182,7 +182,8 @@ function deepmergeConstructor(options: any) {
     const sourceIsArray = Array.isArray(source);
     const targetIsArray = Array.isArray(target);
 
-    if (isPrimitive(source)) {
+    if (isPrimitive(source) || !isMergeableObject(source)) {
+      // built-ins (Date, Map, Set, typed arrays, RegExp) are values, not bags of keys
       return source;
     } else if (isPrimitiveOrBuiltIn(target)) {
       return clone(source);
